@@ -328,14 +328,14 @@ Proof.
 Qed.
 
 Theorem accept_iff_image_tls13_l (s r : St CS) body ty data :
-  mode_ok P R MTls13 c -> aead_tight P -> sync R s r -> ty <> 20 -> zlen body < 65536 ->
+  mode_ok P R MTls13 c -> aead_tight P -> sync R s r -> zlen body < 65536 ->
   ((exists r', unprotect c P r (23, (3, 3), body) = ROk (r', (ty, data))) <->
-   (ty <> 0 /\ zlen data <= c_recv_limit c /\ st_seq s < 18446744073709551616 /\
+   ((ty <> 0 /\ ty <> 20) /\ zlen data <= c_recv_limit c /\ st_seq s < 18446744073709551616 /\
     exists k s', 0 <= k /\ zlen data + 1 + k <= c_recv_limit c + 1 /\
       protect_with c P s (ty, data) {| ch_pad := []; ch_ivb := []; ch_nonce := []; ch_zeros := k |} (3, 3)
         = ROk (s', (23, (3, 3), body)))).
 Proof.
-  intros Hmode Htight Hsync H20 Hb16. pose proof Hsync as [HR [Hseq H0]].
+  intros Hmode Htight Hsync Hb16. pose proof Hsync as [HR [Hseq H0]].
   pose proof Hmode as [[Hl1 [Hl2 Hl3]] [Hv [H13 [Henc [Haead [Hok [Htag [Hnl [Hn8 _]]]]]]]]].
   assert (Ht13 : is_tls13_plus c = true) by (unfold is_tls13_plus; rewrite Hv, H13; reflexivity).
   assert (Hexp : explicit_nonce c = false) by (unfold explicit_nonce; rewrite Ht13; apply andb_false_r).
@@ -348,7 +348,7 @@ Proof.
       destruct (unprotect_inv_tls13 R c P r r' (3, 3) body ty data Hmode H) as [inner [A _]].
       unfold decrypt_and_unseal in A. apply rbind_ok_inv in A. destruct A as [[sb s2] [Hns _]].
       apply next_seq_inv in Hns. lia. }
-    split; [exact Hty|]. split; [exact Hdl|]. split; [exact Hsr|].
+    split; [exact Hty|]. split; [exact Hdl|]. split; [exact Hsr|]. destruct Hty as [Hty H20].
     exists k. eexists. split; [exact Hk|]. split; [exact Hkl|].
     rewrite (protect_with_tls13 s ty data _ Hmode H20). cbn [ch_zeros].
     set (inner := data ++ [ty] ++ zeros k) in *.
@@ -357,7 +357,7 @@ Proof.
       as [n2 [Hg2 Hab]].
     rewrite Hseq in Hg2. rewrite Hgn in Hg2. injection Hg2 as <-.
     rewrite Hab. cbn [rbind]. rewrite <- Hsl, <- Hbody. reflexivity.
-  - intros [Hty [Hdl [Hsr [k [s' [Hk [Hkl Hpw]]]]]]].
+  - intros [[Hty H20] [Hdl [Hsr [k [s' [Hk [Hkl Hpw]]]]]]].
     rewrite (protect_with_tls13 s ty data _ Hmode H20) in Hpw. cbn [ch_zeros] in Hpw.
     set (inner := data ++ [ty] ++ zeros k) in *.
     assert (Hil : zlen inner = zlen data + 1 + k).
@@ -372,12 +372,14 @@ Proof.
     destruct (zlen body >? c_recv_limit c + 2048) eqn:E1; [lia|]. rewrite H13. cbn [andb].
     destruct (zlen body >? c_recv_limit c + 256) eqn:E2; [lia|].
     rewrite Ht13, Henc, Haead. change (23 =? 20) with false. change (23 =? 21) with false. cbn [andb].
+    rewrite ?andb_false_r. cbn [andb].
     unfold decrypt_and_unseal. rewrite next_seq_ok by lia. cbn [rbind]. rewrite Hexp, <- Hseq, Hgn. cbn [rbind].
     destruct (c_tag c >? zlen body) eqn:E3; [lia|]. rewrite Ht13.
     change (23 =? 23) with true. change (pairZ_eqb (3, 3) (3, 3)) with true. cbn [negb rbind].
     replace (zlen inner + c_tag c) with (zlen body) in Hopen by lia. rewrite Hopen. cbn [rbind].
     destruct (zlen inner >? c_recv_limit c + 1) eqn:E4; [lia|].
     unfold inner. rewrite de_pad_spec by exact Hty. cbn [rbind].
+    destruct (ty =? 20) eqn:E20; [apply Z.eqb_eq in E20; contradiction|]. cbn [rbind].
     destruct (zlen data >? c_recv_limit c) eqn:E5; [lia|]. eauto.
 Qed.
 End Iff13.
